@@ -27,8 +27,9 @@ for pid in sorted(P.PROPS):
             cmd += ['-overlay', '%s=>%s' % (os.path.join(R.VERIF, d), target)]
         if sp['interp']:
             cmd += ['-interp', ','.join(sp['interp'])]
-        if sp['init']:
-            cmd += ['-init', ','.join(sp['init'])]
+        inits = [p for p in ('go/token', 'go/ast', 'golang.org/x/tools/go/ast/astutil') if p in (sp['interp'] or []) and p not in sp['init']] + list(sp['init'])
+        if inits:
+            cmd += ['-init', ','.join(inits)]
         for k, v in sp['params'].items():
             cmd += ['-param', '%s=%d' % (k, v)]
         subprocess.run(cmd, env=R.GOENV, capture_output=True, text=True)
